@@ -43,7 +43,7 @@ connection is closed — so a reader whose `ReadMessage` fails *because of* that
 without the multiple-close error has left `Closed` set. -/
 theorem C15_closed_before_close (n : Nat) (sched : List (Nat × Nat)) :
     (1 ≤ (run (init n) sched).connCloses → (run (init n) sched).closed = true) ∧
-    (∀ t, (run (init n) sched).threads[t]? = some .retDone → (run (init n) sched).closed = true) :=
+    (∀ t : Nat, (run (init n) sched).threads[t]? = some CPc.retDone → (run (init n) sched).closed = true) :=
   ⟨(inv2_run _ sched (inv2_init n)).cc, (inv2_run _ sched (inv2_init n)).done⟩
 end FV.WsCl
 
